@@ -14,6 +14,7 @@ EXPLANATION = (
     "skeletons in all four feature configurations. A future membership-only use of Ord would need an allow-list line.")
 ASSUMPTIONS = ["slice::sort and Vec::dedup are deterministic; TypeId ordering is fixed within one build"]
 TRUSTED = ["rustc nightly MIR construction", "shred-facts driver", "shredlint call-cone construction (over-approximate: unresolved trait calls reach every in-crate impl)"]
+TECHNIQUE = 'static: zero-count inventories over the placement call cone (hash iteration, ordering or hashing of ids incl. generic helpers, environment sources, pointer-to-integer casts) with positive examples; cross-configuration skeleton comparison'
 RULE_TEXT = "one obligation per body of the placement cone and per inventory class; zero-count classes are backed by positive examples in the probe crate (thorough)"
 
 ID_TYPES = ("shred::world::ResourceId", "shred::dispatch::dispatcher::SystemId")
